@@ -509,6 +509,37 @@ func costMain(args []string) {
 			}
 		}
 	}
+	// units that MIX two (thorough: three) kinds of constructs: every ordered pair of whole
+	// attribute forms / token forms.  A cost that appears only when one construct is followed
+	// by another one (a cache invalidated by the second, a rescan triggered by the first) needs
+	// such a unit; no single-construct family contains it.
+	htmlForms := []string{"a=b ", "a='b' ", "a=\"b\" ", "a=`b` ", "a ", "a= ", "a/", "a=b>c ", "<b ", "</b ", "<b>", "x "}
+	sqlForms := []string{"1 ", "a ", "'s' ", "\"d\" ", "`t` ", "@v ", "+ ", ", ", "( ", ") ", "/**/", "-- x\n", "#x\n", "$$x$$ ", "x'1' ", "1.5e3 ", "a.b ", "; ", "or ", "select "}
+	for _, a := range htmlForms {
+		for _, b := range htmlForms {
+			if a != b {
+				fams = append(fams, fam{"xss", "", a + b}, fam{"xss", "<a ", a + b})
+			}
+		}
+	}
+	for _, a := range sqlForms {
+		for _, b := range sqlForms {
+			if a != b {
+				fams = append(fams, fam{"sqli", "", a + b})
+			}
+		}
+	}
+	if *tier == "thorough" {
+		for _, a := range htmlForms {
+			for _, b := range htmlForms {
+				for _, c := range htmlForms {
+					if a != b && b != c {
+						fams = append(fams, fam{"xss", "<a ", a + b + c})
+					}
+				}
+			}
+		}
+	}
 	nPairs := 400
 	if *tier == "thorough" {
 		nPairs = 6000
